@@ -4,9 +4,9 @@ package main
 // accounting), C10 (bound, eviction for cause), C19 (timeouts, Close).
 
 import (
-	"math"
 	"encoding/json"
 	"fmt"
+	"math"
 	"math/rand"
 	"os"
 	"strconv"
@@ -446,11 +446,11 @@ func reasmMonitor(c RCase, obs []opObs, prop string) (clause string) {
 			reasmSibling = msg
 		}
 	}
-	pushedAt := map[int]int{}   // id -> op index
-	seqOf := map[int]uint32{}   // id -> seq
-	typOf := map[int]uint16{}   // id -> typ
-	deliveredAt := map[int]int{} // id -> op index
-	groupOf := map[int]int{}    // id -> global group number
+	pushedAt := map[int]int{}     // id -> op index
+	seqOf := map[int]uint32{}     // id -> seq
+	typOf := map[int]uint16{}     // id -> typ
+	deliveredAt := map[int]int{}  // id -> op index
+	groupOf := map[int]int{}      // id -> global group number
 	open := map[uint32]*evTrack{} // currently buffered events by seq (monitor's reconstruction)
 	var order []uint32            // buffered seqs in arrival order of first record
 	closedOK := false
